@@ -451,10 +451,11 @@ class Angle(object):
         d, m, s, sign = Angle.deg2dms(self._deg)
         if n_dec >= 0:
             s = round(s, n_dec)
-            if abs(s - 60.0) < TOL:
+            # Carry only when the rounded seconds have reached 60
+            if s >= 60.0:
                 s = 0.0
                 m += 1
-            if abs(m - 60.0) < TOL:
+            if m >= 60:
                 m = 0
                 d += 1.0
             if d >= 360.0:
